@@ -1,9 +1,9 @@
 CONSTANTS
-  N = 4
+  N = 3
   MaxTok = 2
-  MaxM = 5
+  MaxM = 4
   Z = 2
-  MaxSize = 5
+  MaxSize = 4
   MaxEvents = 3
   ZaModes = {TRUE, FALSE}
   FullMem = FALSE
